@@ -688,12 +688,30 @@ func ruleC05R3(r *Run) {
 		}
 		r.Check("panicToError#stop", pe.Pos(), ok, "the frame walk stops at tracebackStop", "panicToError no longer stops the frame walk at tracebackStop")
 		// frames are recorded with file:line and function
-		okFmt := false
-		for _, cs := range p.callsTo(pe, "fmt.Fprintf") {
-			if f, _ := constString(p.resolve(cs.Arg(1))); strings.Contains(f, "%s:%d") {
-				okFmt = true
+		// (file, line and function of every frame flow into what is written to the traceback, by whatever formatting)
+		written := map[string]bool{}
+		for _, cs := range p.callsTo(pe, "fmt.Fprintf", "fmt.Fprint", "fmt.Fprintln", "fmt.Sprintf", "(*strings.Builder).WriteString", "(*strings.Builder).WriteByte", "(*strings.Builder).WriteRune", "strconv.Itoa", "strconv.FormatInt") {
+			var args []ssa.Value
+			for k, a := range cs.Common.Args {
+				if vs := p.variadicArgs(a); len(vs) > 0 && k == len(cs.Common.Args)-1 && strings.HasPrefix(cs.Key, "fmt.") {
+					args = append(args, vs...)
+				} else {
+					args = append(args, a)
+				}
+			}
+			for _, a := range args {
+				if a == nil {
+					continue
+				}
+				ex := p.expr(a)
+				for _, f := range []string{"File", "Line", "Function"} {
+					if strings.Contains(ex, "."+f) {
+						written[f] = true
+					}
+				}
 			}
 		}
+		okFmt := written["File"] && written["Line"] && written["Function"]
 		r.Check("panicToError#frames", pe.Pos(), okFmt, "each frame is recorded as file:line in function", "panicToError no longer records file:line per frame: distinct failure sites can get equal tracebacks")
 		// the frame walk ends only at the stop frame or when the frames are exhausted: every frame inside the property is kept
 		for _, l := range loopsOf(pe) {
